@@ -41,7 +41,7 @@ fn strata(t: Tier) -> Vec<Stratum> {
     vec![
         st("well-formed", scale(t, 240_000, 2_400_000, 6)),
         st("corrupted-tables", scale(t, 480_000, 4_800_000, 6)),
-        ex("hash-fn-short-strings", 1),
+        ex("hash-fn-short-strings", scale(t, 1, 1, 0)),
         st("hash-fn-random", scale(t, 1_600_000, 16_000_000, 50)),
     ]
 }
@@ -86,7 +86,7 @@ fn well_formed(ctx: &mut Ctx) {
     let enc = Enc::ALL[ctx.rng.usize_below(4)];
     ctx.count(&format!("enc:{}", enc.name()));
     let any = ctx.rng.bool();
-    let mut names = gen_names(&mut ctx.rng, 300, true);
+    let mut names = gen_names(&mut ctx.rng, if ctx.tier == Tier::Miri { 24 } else { 300 }, true);
     let nsyms = names.len();
     let p = gen_params(&mut ctx.rng, nsyms);
     if p.shift >= 16 {
